@@ -378,14 +378,13 @@ def structural(res, opts):
            detail='with C02 (descending handler priority) every timer bounds time_left before a poller or the fallback generator blocks')
     # (the poller halves - kernel wait bounded by time_left, resume writes the control pipe, the event is stopped - are contracts now:
     #  contracts.pollers *._generate_events, contracts.pollers_wake)
-    _, src = deco('circuits/core/helpers.py', 'FallBackGenerator.resume')
-    add_ob(res, 'resume.fallback_sets_flag', 'self._continue.set()' in src, 'ast', detail=src[-60:])
+    #  and contracts.fallback_wake: FallBackGenerator.resume)
 
 
 SPECS.append(CustomCheck('C09', 'priorities(structural)', structural, file='circuits/core/*.py',
-                         clause='decorator facts: Timer (0) > BasePoller (-9) > FallBackGenerator (-100); the fallback resume sets the flag'))
+                         clause='decorator facts: Timer (0) > BasePoller (-9) > FallBackGenerator (-100)'))
 SPECS.append(CustomCheck('C03', 'wakeup(structural)', structural, file='circuits/core/*.py',
-                         clause='(sequential mechanism 4) handler priorities; the fallback resume sets the flag (the poller halves are contracts)'))
+                         clause='(sequential mechanism 4) handler priorities (the resume / kernel-wait halves are contracts)'))
 
 
 # ----------------------------------------------------------------------------- C03.2: arming block of the dispatcher
